@@ -20,7 +20,12 @@ def exceptions : List String := ["config.OpenIDClientJWK", "config.OpenIDClientS
 
 def isLiteral (a : String) : Bool := "\"".toList.isPrefixOf a.toList
 
-def suspicious (a : String) : Bool := !isLiteral a && !exceptions.contains a && secretWords.any fun w => hasInfix w.toList a.toList
+/-- the same words as character lists, computed once (the kernel decodes a string literal every time it meets `toList`) -/
+def secretWordsL : List (List Char) := secretWords.map String.toList
+
+def suspiciousL (a : String) (al : List Char) : Bool := !isLiteral a && !exceptions.contains a && secretWordsL.any fun w => hasInfix w al
+
+def suspicious (a : String) : Bool := suspiciousL a a.toList
 
 /-- **no log statement and no error construction interpolates a secret-bearing identifier** — over the WHOLE regenerated table -/
 theorem no_secret_argument : sites.all (fun s => s.2.2.2.2.all fun a => !suspicious a) = true := by decide +kernel
